@@ -2,7 +2,10 @@
 """Regenerates /verif/MANIFEST.json from checks.json (+ na.json for not_applicable reasons)."""
 import json, os
 V = os.path.dirname(os.path.dirname(os.path.abspath(__file__)))
+import glob
 checks = json.load(open(os.path.join(V, "checks.json")))
+for f in sorted(glob.glob(os.path.join(V, "checks.d", "*.json"))):
+    checks.update(json.load(open(f)))
 props = [json.loads(l) for l in open(os.path.join(V, "properties.jsonl"))]
 na_reasons = {}
 if os.path.exists(os.path.join(V, "na.json")):
